@@ -54,6 +54,9 @@ ALPHABET = [
     ["dict", [[["lit", "a"], ["dict", [[["lit", "b"], ["lit", 0]]]]]]],
     ["dict", [[["lit", "a"], ["lit", 0]], [["lit", 0], ["lit", 0]]]],
     ["ddict", []], ["ddict", [[["lit", 0], ["list", [["lit", 1]]]]]],
+    ["list", [["dict", [[["lit", "a"], ["lit", 0]], [["lit", "c"], ["lit", 1.5]]]]]],
+    ["list", [["dict", [[["lit", "a"], ["lit", 0]]]], ["dict", [[["lit", "a"], ["lit", 0]], [["lit", "b"], ["lit", "x"]]]]]],
+    ["tuple", [["dict", [[["lit", "a"], ["lit", 0]], [["lit", "b"], ["lit", "x"]]]]]], ["tuple", [["dict", [[["lit", "a"], ["lit", 0]]]]]],
 ]
 
 
@@ -64,10 +67,44 @@ def enumeration(max_size):
                 yield [ALPHABET[i] for i in combo], k
 
 
+KEYTYPE = {"a": ["lit", 0], "b": ["lit", "x"], "c": ["lit", 1.5], "d": ["lit", None], "e": ["inst", "D1"]}
+
+
+def overflow_multiset():
+    """2..3 containers of records over keys a..e (value type fixed per key), with k chosen so that every
+    container's own merged TypedDict fits but the merge across containers is at or just over the limit:
+    the second-level merge / oversize fallback path of shrink_typed_dict_types."""
+    rec = st.lists(st.sampled_from(sorted(KEYTYPE)), min_size=1, max_size=3, unique=True).map(
+        lambda ks: ["dict", [[["lit", k], KEYTYPE[k]] for k in ks]])
+    cont = st.tuples(st.sampled_from(["list", "list", "tuple1", "dictval"]), st.lists(rec, min_size=1, max_size=3))
+
+    def mk(p):
+        kind, recs = p
+        if kind == "list":
+            return ["list", recs]
+        if kind == "tuple1":
+            return ["tuple", recs[:1]]
+        return ["dict", [[["lit", 0], recs[0]]]]
+
+    def keys_of(c):
+        rs = c[1] if c[0] in ("list", "tuple") else [c[1][0][1]]
+        return set(k[1] for r in rs for k, _ in r[1])
+
+    def fin(p):
+        conts, delta = p
+        conts = [mk(c) for c in conts]
+        per = max(len(keys_of(c)) for c in conts)
+        allk = len(set().union(*[keys_of(c) for c in conts]))
+        k = [per, allk - 1, allk, per + 1][delta]
+        return conts, max(k, 1)
+
+    return st.tuples(st.lists(cont, min_size=2, max_size=3), st.integers(0, 3)).map(fin)
+
+
 def case_strategy():
+    general = st.tuples(vals.shaped_multiset(), st.integers(0, 1000)).map(lambda p: (p[0], vals.k_for(p[0], p[1])))
     return st.tuples(
-        vals.shaped_multiset(),
-        st.integers(0, 1000),
+        st.one_of(general, general, general, overflow_multiset()),
         st.integers(0, 2**32).map(__import__('random').Random),
         st.lists(st.integers(1, 3), min_size=8, max_size=8),
     )
@@ -79,8 +116,7 @@ def run_engine(ctx, oracle, n_random, enum_size, enum_fraction):
     def factory(ctx):
         @given(case_strategy())
         def test(c):
-            specs, kdraw, rnd, dups = c
-            k = vals.k_for(specs, kdraw)
+            (specs, k), rnd, dups = c
             ctx.case([specs, k], nontrivial(specs, k), [path_label(specs, k), "k=%s" % (k if k in KS else "rel")])
             oracle(ctx, specs, k, rnd, dups)
         return test
